@@ -40,6 +40,17 @@ def okIp6 (s : String) : Bool :=
   s.contains ':' && s.toList.all (fun c => c == ':' || c.isDigit || ('a' ≤ c && c ≤ 'f') || ('A' ≤ c && c ≤ 'F'))
 def okIp (s : String) : Bool := okIp4 s || okIp6 s
 
+/-- Indices (into the input) of the admitted listeners, matched greedily as a subsequence. -/
+def idxOf (input out : List Listener) : List Nat :=
+  let rec go (inp : List Listener) (i : Nat) (out : List Listener) : List Nat :=
+    match out with
+    | [] => []
+    | o :: os =>
+      match inp with
+      | [] => []
+      | x :: xs => if x = o then i :: go xs (i + 1) os else go xs (i + 1) (o :: os)
+  go input 0 out
+
 inductive POp where
   | op (o : Op)
   | gcRaw (ls : List Listener)
@@ -107,8 +118,8 @@ def runArb (fs : List String) : String × String :=
     | .gcRaw raw =>
       let a := admitAll forb okIp4 okIp6 raw
       let (s', cs, ps) := step id s (.gc a.out)
-      (s', outs ++ [obs s' cs ps ++ s!"#L={joinWith "+" (a.out.map (·.name))}#E={b01 (!a.dropped.isEmpty)}"],
-        specs ++ [Spec.render s'.toObjs])) (({ toObjs := { cfg := cfg } } : State), [], [])
+      (s', outs ++ [obs s' cs ps ++ s!"#L={joinWith "+" ((idxOf raw a.out).map toString)}#E={b01 (!a.dropped.isEmpty)}"],
+        specs ++ [Spec.render s'.toObjs ++ s!"#A={joinWith "+" ((idxOf raw (Spec.admitSpec forb okIp4 okIp6 raw)).map toString)}"])) (({ toObjs := { cfg := cfg } } : State), [], [])
   (joinWith ";;" outs, joinWith ";;" specs)
 
 def run (kind : String) (fs : List String) : Option (String × String) :=
